@@ -266,4 +266,34 @@ PROPS["C05"] = {
     },
 }
 
+PROPS["C09"] = {
+    "lean": ["TinkVerif.Props.C09"],
+    "theorems": T("TinkVerif.Jwt", "verifyOne_accept_iff bad_signature_rejected validateHeader_sound wrong_alg_rejected crit_rejected "
+                  "tink_kid_required fieldRule_table validate_iff missing_exp_needs_option newValidator_guards verifyKeyset_accept_iff"),
+    "harness": [{"name": "c09"}],
+    "rule": "product-space JWT generator: subsets of registered claims, custom claims of every JSON kind, all validator option "
+            "combinations incl. invalid ones, time grid around now±skew with nanosecond clocks, skews {0,1s,10min,10min+1ns,negative}, "
+            "keys HS256/384/512, ES256/384/512, RS*, PS*, ML-DSA × kid strategies × TINK/RAW, header manipulations (alg none/other "
+            "family/other hash, kid missing/wrong/non-string, crit, non-string typ, extra fields), structure manipulations (dots, empty "
+            "parts, padded/standard-alphabet base64, whitespace), signature mutations, multi-key keysets with disabled keys; the model "
+            "receives the compact string, header and payload from an independent encoding/json parse and the per-key raw-signature "
+            "validity bits; accept/verification-error/validation-error and the logged key id are compared; claims of accepted tokens "
+            "are compared with the independent parse; non-trivial = every verify line, distinct by line hash",
+    "trusted_base": [KERNEL, TIE, "JSON text parsing is protobuf structpb's (the generator stays on JSON where encoding/json and "
+                     "protobuf agree: unique keys, valid UTF-8, numbers exactly representable)",
+                     "raw signature/MAC validity is measured with tink's single-key raw primitives (C03/C04/C10 cover those)"],
+    "assumptions": ["float formatting/rounding of time claims is not modelled"],
+    "manifest": {
+        "text": "Decision theorems stated outright, for every token text, parsed header/payload, key configuration, validator options, "
+                "instant and skew: a single key accepts iff the compact form splits correctly, the raw signature verifies, the header "
+                "names exactly the key's algorithm, has no crit, satisfies the kid rule, typ is a string if present, the payload is "
+                "well-formed and the validator's exp/nbf/iat/typ/aud/iss rules hold; the keyset-level primitive accepts iff some listed "
+                "key accepts; presence matrix, constructor guards, boundary instants. Tie: product-space token generator, decisions and "
+                "logged key ids of the real JWT primitives vs the model.",
+        "design_ref": "DESIGN.md §5.9",
+        "note": "Trusted: Lean kernel; structpb JSON parsing and raw signature checks are inputs to the model.",
+        "technique": "Lean 4 proof (decision logic stated outright) + Go/Lean decision correspondence over a product-space generator",
+    },
+}
+
 NOT_BUILT = {}
